@@ -114,7 +114,34 @@ pub fn observe(e: &StorageEngine, known: &Known, mode: Mode) -> J {
         }
         schemas.insert(g.clone(), J::Object(sm));
     }
-    json!({"kgs": kgs, "facts": facts, "rules": rules, "schemas": schemas})
+    // consistent reads of the incremental engine's arrangements, where it is enabled (C19)
+    let mut incr = serde_json::Map::new();
+    for g in &kgs {
+        if let Some(rels) = known.get(g) {
+            let r = e.with_kg_read(g, |kg| {
+                let mut m = serde_json::Map::new();
+                if let Some(dd) = kg.incremental() {
+                    for r in rels.keys() {
+                        match dd.read_relation_consistent(r) {
+                            Ok(ts) => {
+                                m.insert(r.clone(), val::relation(&ts, mode));
+                            }
+                            Err(err) => {
+                                m.insert(r.clone(), json!([[["err", err]]]));
+                            }
+                        }
+                    }
+                    Ok(Some(m))
+                } else {
+                    Ok(None)
+                }
+            });
+            if let Ok(Some(m)) = r {
+                incr.insert(g.clone(), J::Object(m));
+            }
+        }
+    }
+    json!({"kgs": kgs, "facts": facts, "rules": rules, "schemas": schemas, "incr": incr})
 }
 
 pub struct Runner {
@@ -191,6 +218,11 @@ impl Runner {
                     e.register_schema_in(&g, rs).map(|_| json!({})).map_err(|e| format!("{e}"))
                 }
                 "dropschema" => e.remove_schema_in(&g, &rel).map(|_| json!({})).map_err(|e| format!("{e}")),
+                // turn on incremental maintenance (what creating an index does)
+                "enable_incr" => e
+                    .with_kg_mut(&g, |kg| kg.enable_incremental().map_err(|e| format!("{e}")))
+                    .map(|_| json!({}))
+                    .map_err(|e| format!("{e}")),
                 "restart" | "restart_nosave" => Err("restart handled by caller".into()),
                 other => Err(format!("unknown op {other}")),
             }
@@ -259,7 +291,7 @@ pub fn run_history(case: usize, kind: &str, ops: &[J], cfg: &StoreCfg, mode: Mod
         if r.engine.is_none() {
             // reopen failed: the store is gone; record and stop this history
             out.push(json!({"ev":"op","case":case,"kind":kind,"step":i+1,"op":op_for_trace(op),"ok":false,"ret":ret,
-                "state":{"kgs":[],"facts":{},"rules":{},"schemas":{}},"reopen_failed":true}).to_string());
+                "state":{"kgs":[],"facts":{},"rules":{},"schemas":{},"incr":{}},"reopen_failed":true}).to_string());
             break;
         }
         out.push(json!({"ev":"op","case":case,"kind":kind,"step":i+1,"op":op_for_trace(op),"ok":ok,"ret":ret,"state":r.observe()}).to_string());
@@ -460,6 +492,12 @@ pub fn main(args: &BTreeMap<String, String>) {
             let c = grid.choose(&mut rng).unwrap().clone();
             if focus == "c12" {
                 jobs.push((id, "values".into(), values_history(&mut rng), c));
+            } else if focus == "c19" {
+                // incremental maintenance switched on somewhere early in the history
+                let mut h = random_history(&mut rng, len);
+                let at = rng.gen_range(0..=h.len().min(3));
+                h.insert(at, json!({"k":"enable_incr","kg":"g"}));
+                jobs.push((id, "random".into(), h, c));
             } else {
                 jobs.push((id, "random".into(), random_history(&mut rng, len), c));
             }
